@@ -136,10 +136,16 @@ func contexts(d bleDecoder, rng *Rng, extra int) [][]byte {
 	return out
 }
 
+// specMode: the suite's lines are answered by the layout specification (BS) instead of the translated code (BD)
+var specMode bool
+
 func emitBle(s *Sink, d bleDecoder, tag string, inp, spare []byte) string {
 	out := decodeReal(d, inp, spare)
-	s.Line(tag, fmt.Sprintf("BD %s %s %s", d.name, hexOrDash(inp), hexOrDash(spare)), out)
-	s.Line(tag+"-spec", fmt.Sprintf("BS %s %s", d.name, hexOrDash(inp)), out)
+	if specMode {
+		s.Line(tag+"-spec", fmt.Sprintf("BS %s %s", d.name, hexOrDash(inp)), out)
+	} else {
+		s.Line(tag, fmt.Sprintf("BD %s %s %s", d.name, hexOrDash(inp), hexOrDash(spare)), out)
+	}
 	return out
 }
 
@@ -278,6 +284,9 @@ func suiteC08(rng *Rng, thorough bool, s *Sink) {
 						}
 						out := decodeReal(d, inp, spare)
 						ops := fmt.Sprintf("BD %s %s %s", d.name, hexOrDash(inp), HEX(spare))
+						if specMode {
+							ops = fmt.Sprintf("BS %s %s", d.name, hexOrDash(inp))
+						}
 						s.Line(d.name+"-spare", ops, out)
 						if out != base {
 							s.Violate(ops, out, fmt.Sprintf("%s: result depends on the bytes beyond the slice's length (cap-len=%d): %s vs %s with cap == len", d.name, sp, out, base))
@@ -328,9 +337,11 @@ func suiteC08(rng *Rng, thorough bool, s *Sink) {
 
 func runBleSuite(suite string, rng *Rng, thorough bool, s *Sink) bool {
 	switch suite {
-	case "c07":
+	case "c07", "c07spec":
+		specMode = suite == "c07spec"
 		suiteC07(rng, thorough, s)
-	case "c08":
+	case "c08", "c08spec":
+		specMode = suite == "c08spec"
 		suiteC08(rng, thorough, s)
 	default:
 		return runBleHandleSuite(suite, rng, thorough, s)
